@@ -151,6 +151,20 @@ func traceAuth(out string, nTraces, blocks int) {
 					tx = inBlock[rng.Intn(len(inBlock))] // same bytes again in this block
 				case len(history) > 0 && rng.Intn(6) == 0:
 					tx = history[rng.Intn(len(history))] // same bytes from an earlier block
+				case len(history) > 0 && rng.Intn(6) == 0:
+					// the same signed content in different bytes (re-encoding)
+					old := history[rng.Intn(len(history))]
+					if bz, ok := s.Reencode(old.bytes, rng.Intn(2)); ok {
+						abs := map[string]interface{}{}
+						for k, v := range old.abs {
+							abs[k] = v
+						}
+						abs["dup"] = "reencoded"
+						tx = sentTx{bz, abs}
+					} else {
+						entropy++
+						tx = sendTx(s, rng, entropy)
+					}
 				default:
 					entropy++
 					tx = sendTx(s, rng, entropy)
